@@ -8,7 +8,7 @@ BUILD_TARGETS = ()
 
 
 def nops(d):
-    return d.count("(")
+    return d.split("}")[-1].count("(")
 
 
 def check(tier):
@@ -18,17 +18,22 @@ def check(tier):
     sc = vs.list_scenarios(exe)
     small = [i for i, d in sc if nops(d) <= 3]
     large = [i for i, d in sc if nops(d) > 3]
+    exe4 = vs.build_harness("c29_unionfind4")
+    sc4 = vs.list_scenarios(exe4)
+    based4 = [i for i, d in sc4 if d.startswith("base{")]
     if tier == "quick":
+        vs.explore_all(rep, "c29_unionfind4", based4, bound=3, budget_per_scenario=30, deadline=dl)
         vs.explore_all(rep, "c29_unionfind", small, bound=3, budget_per_scenario=30, deadline=dl)
     else:
+        vs.explore_all(rep, "c29_unionfind4", based4, bound=5, budget_per_scenario=60, deadline=dl)
         vs.explore_all(rep, "c29_unionfind", small, bound=5, budget_per_scenario=60, deadline=dl)
         vs.explore_all(rep, "c29_unionfind", large, bound=3, budget_per_scenario=60, deadline=dl)
-        exe4 = vs.build_harness("c29_unionfind4")
-        sc4 = vs.list_scenarios(exe4)
-        vs.explore_all(rep, "c29_unionfind4", [i for i, d in sc4 if nops(d) <= 3], bound=3, budget_per_scenario=60, deadline=dl)
+        vs.explore_all(rep, "c29_unionfind4", [i for i, d in sc4 if nops(d) <= 3 and not d.startswith("base{")], bound=3, budget_per_scenario=60, deadline=dl)
     rep.set("rule", "scenario = 2 threads x <=2 operations or 3 threads x 1 operation over {union(a,b), find(a), sameSet(a,b)} on 3 nodes "
-            "(thorough: also 4 nodes) with at least one/two unions; every schedule with at most `bound` preemptions at atomic operations is "
-            "executed on the real DisjointSet; the forest/rank/monotone-connectivity invariant is evaluated after every step")
+            "(thorough: also 4 nodes) with at least one/two unions, from fresh nodes and from 2-6 pre-built forests (4 nodes: 2 threads x 1 operation); "
+            "every scenario is first explored without a preemption bound under sleep-set partial-order reduction (all interleavings, every reachable "
+            "state), the ones that do not complete within the budget with at most `bound` preemptions; executed on the real DisjointSet; the "
+            "forest/rank/monotone-connectivity invariant is evaluated after every step, every answer is checked against snapshots taken at call and return")
     rep.assume("sequentially consistent executions")
     return rep.finish()
 
